@@ -13,12 +13,16 @@ Correspondence streams (model = coq/Model/Maxvol.v evaluated by vm_compute):
                index vector AND B compared exactly.  The model is the code (masked arg-max); a case on which the
                implementation agrees with the pinned variant np.argmax(F) instead is a MISMATCH (revert of cac7db0).
   qc_dispatch  utils._maxvol incl. n <= r
+  (forms / scales: in qc_maxvol, qc_rect, qc_dispatch the implementation receives A as C / F-ordered / non-contiguous /
+               transposed-view float64 or int64 / int32 array and scalars as Python / NumPy scalars / 0-d arrays; one case in
+               three is rescaled by an exact power of two 2^+-200 / 2^+-500 on both sides)
   errors       wide / square input, inconsistent dr_min / dr_max: exception class exact
   f_maxvol / f_rect   PrimFloat instance + replayed (recorded) LU initialisation, conditioning up to 1e8
 A pure-Python walk through the algorithm (`_sim_*`, Fractions or floats) is used ONLY to classify generated
 inputs (decision margins >= 1e-6, exactness class); it never decides pass / fail.
 """
 import sys
+import time
 from fractions import Fraction as Fr
 import numpy as np
 from harness import common as C
@@ -48,7 +52,14 @@ CLAIM = dict(
          'numerically on every recorded call and exactly (over Qc) on the exact streams; full column rank enters '
          'only through that contract. The determinant reading of max|B| <= e ("no single row swap enlarges the volume '
          'by more than e") is a remark, not proved (no determinant theory in the model). Theorems are '
-         'about exact arithmetic; IEEE rounding is covered by the float-instance correspondence only.',
+         'about exact arithmetic; IEEE rounding is covered by the float-instance correspondence only. '
+         'Cross-cutting families validated numerically (correspondence + search), not proved: argument forms (A as C / F-ordered / '
+         'non-contiguous / transposed-view float64, int64 / int32 / int8 / uint8 / float32 / float16 arrays; scalars as Python / '
+         'NumPy scalars / 0-d arrays; dr_max None = n-r = clipped, 0 = plain maxvol; defaults explicit / by keyword), histories '
+         '(the same A object through maxvol, maxvol_rect, _maxvol repeatedly: answers of a fresh copy, A bit-identical afterwards), '
+         'scales (A * 2^+-500 same I and bit-identical B, 2^+-1000 to 1e-9; rows rescaled individually within conditioning 1e8 - the '
+         'quantifier of the property; beyond it the float run is not covered), thresholds hit exactly (max|B0| == e, max F == e*e) '
+         'and one step below. Kept out: A given as list / tuple (undocumented, raises AttributeError), float k / dr (raise).',
     technique='Coq proof (loop invariants over an abstract ordered field) + model/implementation correspondence '
               '(Qc exact incl. an exactly-representable zero-residual / duplicate-row family, PrimFloat with replayed LU) '
               '+ numpy oracle of every clause')
@@ -483,6 +494,53 @@ def _float_prefilter(A, e):
     return sw, re
 
 
+def _form_A(rng, A):
+    """argument form of A for the implementation side of a correspondence case (the model sees the same numbers):
+    C / F-ordered / non-contiguous / transposed view float64, int64 / int32 when A is integer valued"""
+    M = _fA(A)
+    n, r = M.shape
+    integral = all(Fr(x).denominator == 1 and abs(Fr(x)) < 2 ** 30 for row in A for x in row)
+    ch = rng.choice(['C', 'C', 'F', 'strided', 'T-view', 'int64', 'int32'])
+    if ch in ('int64', 'int32') and not integral:
+        ch = 'F'
+    if ch == 'F':
+        return ch, np.asfortranarray(M)
+    if ch == 'strided':
+        big = np.full((2 * n + 1, 3 * r + 2), -3.25)
+        big[1::2, ::3][:n, :r] = M
+        return ch, big[1::2, ::3][:n, :r]
+    if ch == 'T-view':
+        return ch, np.ascontiguousarray(M.T).T
+    if ch in ('int64', 'int32'):
+        return ch, M.astype(ch)
+    return ch, M
+
+
+def _form_f(rng, x):
+    return rng.choice([float, float, np.float64, lambda v: np.array(float(v))])(float(x))
+
+
+def _form_i(rng, x):
+    if x is None:
+        return None
+    return rng.choice([int, int, np.int64, np.int32, lambda v: np.array(int(v))])(int(x))
+
+
+def _scale_pow(rng):
+    """exact power-of-two rescaling of the whole matrix (applied to model and implementation alike, AFTER the
+    classification walk: it commutes exactly with every operation of the algorithm)"""
+    return rng.choice([0, 0, 0, 0, 0, 500, -500, 200, -200, 1])
+
+
+def _scaled(A, p):
+    return A if p == 0 else [[Fr(x) * Fr(2) ** p for x in row] for row in A]
+
+
+def _form_note(dist, key):
+    dist.setdefault('forms', {})
+    dist['forms'][key] = dist['forms'].get(key, 0) + 1
+
+
 POOL_L64 = [Fr(k, 64) for k in range(44, 65)]
 POOL_LDY = [Fr(1), Fr(1), Fr(1, 2), Fr(3, 4)]
 POOL_INT = [Fr(x) for x in range(-5, 6)]
@@ -643,11 +701,15 @@ def correspondence(R, ctx):
         if not (tf and safe):
             dist['dropped_near_tie'] += 1
             continue
+        p2 = _scale_pow(rng)
+        As = _scaled(A, p2)
+        fa, Aarg = _form_A(rng, As)
+        _form_note(dist, fa + ('' if p2 == 0 else ' * 2^%d' % p2))
         with Recorder() as rec:
-            impl = _impl(tn.maxvol, _fA(A), float(e), k)
-        contract = _validate_init(_fA(A), rec.calls[0][0], rec.calls[0][1], 1e3) if rec.calls else 'no LU call recorded'
-        items.append(dict(coq=[f'showRQ (maxvol OQc QX {_qmat(A)} {_qe(e)} {k})'], impl=impl, contract=contract,
-                          input=dict(f='maxvol', A=_jin(A), e=str(e), k=k)))
+            impl = _impl(tn.maxvol, Aarg, _form_f(rng, e), _form_i(rng, k))
+        contract = _validate_init(_fA(As), rec.calls[0][0], rec.calls[0][1], 1e3) if rec.calls else 'no LU call recorded'
+        items.append(dict(coq=[f'showRQ (maxvol OQc QX {_qmat(As)} {_qe(e)} {k})'], impl=impl, contract=contract,
+                          input=dict(f='maxvol', A=_jin(As), e=str(e), k=k, A_form=fa)))
         dist['kinds'][kind] = dist['kinds'].get(kind, 0) + 1
         dist['r_n'].add((r, n))
         dist['swaps'][sw] = dist['swaps'].get(sw, 0) + 1
@@ -793,13 +855,19 @@ def correspondence(R, ctx):
         if not (tf and safe and safe2):
             dist['dropped_near_tie'] += 1
             continue
-        impl = _impl(tn.maxvol_rect, _fA(A), float(e), dr_min, dr_max, float(e0), k0)
-        args = f'{_qmat(A)} {_qe(e)} ({dr_min})%Z {_optz(dr_max)} {_qe(e0)} {k0}'
+        p2 = _scale_pow(rng)
+        As = _scaled(A, p2)
+        fa, Aarg = _form_A(rng, As)
+        _form_note(dist, fa + ('' if p2 == 0 else ' * 2^%d' % p2))
+        impl = _impl(tn.maxvol_rect, Aarg, _form_f(rng, e), _form_i(rng, dr_min), _form_i(rng, dr_max), _form_f(rng, e0),
+                     _form_i(rng, k0))
+        args = f'{_qmat(As)} {_qe(e)} ({dr_min})%Z {_optz(dr_max)} {_qe(e0)} {k0}'
         coq = [f'showRQ (maxvol_rect OQc QX {args})']
         if fz:
             coq.append(f'showRQ (maxvol_rect_pinned OQc QX {args})')
         items.append(dict(coq=coq, impl=impl, flagged=fz,
-                          input=dict(f='maxvol_rect', A=_jin(A), e=str(e), dr_min=dr_min, dr_max=dr_max, e0=str(e0), k0=k0)))
+                          input=dict(f='maxvol_rect', A=_jin(As), e=str(e), dr_min=dr_min, dr_max=dr_max, e0=str(e0), k0=k0,
+                                     A_form=fa)))
         dist['kinds'][kind] = dist['kinds'].get(kind, 0) + 1
         key = f'{dr_min},{dr_max}'
         dist['dr'][key] = dist['dr'].get(key, 0) + 1
@@ -930,7 +998,10 @@ def correspondence(R, ctx):
                 continue
             dist['to_maxvol' if d1 == 0 else 'to_rect'] += 1
             dist['forced_zero_residual'] += int(fz)
-        impl = _impl(tn._maxvol, _fA(A), float(tau), dr_min, dr_max, float(tau0), k0)
+        fa, Aarg = _form_A(rng, A)
+        _form_note(dist, fa)
+        impl = _impl(tn._maxvol, Aarg, _form_f(rng, tau), _form_i(rng, dr_min), _form_i(rng, dr_max), _form_f(rng, tau0),
+                     _form_i(rng, k0))
         args = f'QX {_qmat(A)} {_qe(tau)} ({dr_min})%Z ({dr_max})%Z {_qe(tau0)} {k0}'
         coq = [f'showRQ (maxvol_dispatch OQc true {args})']
         if fz:
@@ -1559,60 +1630,13 @@ def search(R, ctx, deep, hints):
             else:
                 run(dict(f='_maxvol', A=_js(A), tau=e, dr_min=rng.randint(0, 5), dr_max=rng.randint(0, 6), tau0=e0, k0=k0,
                          cond_log10=lc))
-    # 2b. the clause "max|B| <= e when the iteration limit is not hit" on MANY small matrices: n = r+1 .. 3r (some 4r),
-    #     r = 2 .. 5 (some up to 8), e in {1.0, 1.01, 1.05, 1.1}, k large.  Families in which the LU start is poor, pivots
-    #     cycle and swapped-out rows regain dominance: P L with |L| ~ 1 below the diagonal, near-tie magnitudes, rows that
-    #     are perturbations / rescalings of each other, nearly rank-one, permuted triangular, small integers.
-    def small(fam, r, n):
-        if fam == 'L':
-            lo = rng.choice([0.0, 0.7, 0.9])
-            L = np.zeros((n, r))
-            for i in range(n):
-                for j in range(min(i, r)):
-                    L[i, j] = rng.choice([-1.0, 1.0]) * rng.uniform(lo, 1.0)
-                if i < r:
-                    L[i, i] = 1.0
-            if rng.random() < 0.3:
-                L = L @ (np.eye(r) + np.triu(nprng.normal(size=(r, r)), 1))
-            return L[nprng.permutation(n)]
-        if fam == 'near':
-            return nprng.choice([-1.0, 1.0], size=(n, r)) * nprng.uniform(0.8, 1.25, size=(n, r))
-        if fam == 'pm01':
-            return nprng.choice([-1.0, 0.0, 1.0], size=(n, r)) + 0.2 * nprng.normal(size=(n, r))
-        if fam == 'perturb':
-            base = nprng.normal(size=(rng.randint(1, r), r))
-            A = base[nprng.integers(0, base.shape[0], size=n)] * (1 + 0.2 * nprng.normal(size=(n, 1)))
-            return A + 10.0 ** rng.randint(-3, -1) * nprng.normal(size=(n, r))
-        if fam == 'rank1ish':
-            return nprng.normal(size=(n, 1)) @ nprng.normal(size=(1, r)) + 10.0 ** rng.randint(-3, -1) * nprng.normal(size=(n, r))
-        if fam == 'tri':
-            A = np.tril(nprng.normal(size=(n, r))) + 0.1 * nprng.normal(size=(n, r))
-            return A[nprng.permutation(n)]
-        if fam == 'int':
-            return nprng.integers(-9, 10, size=(n, r)).astype(float)
-        if fam == 'rescaled':      # rows rescaled so that rows dropped early regain dominance after later swaps
-            return nprng.normal(size=(n, r)) * np.exp(0.7 * nprng.normal(size=(n, 1))) * np.exp(0.7 * nprng.normal(size=(1, r)))
-        return nprng.normal(size=(n, r))
-    fams = ['L', 'L', 'L', 'L', 'near', 'pm01', 'perturb', 'rank1ish', 'tri', 'int', 'rescaled', 'gauss']
-    n_small, n_rank = (60000 if deep else 8000), 0
-    for t in range(n_small):
-        fam = fams[t % len(fams)]
-        r = rng.randint(2, 5) if t % 4 else rng.randint(5, 8)
-        n = rng.randint(r + 1, 3 * r) if t % 5 else rng.randint(r + 1, 4 * r)
-        A = small(fam, r, n)
-        if np.linalg.matrix_rank(A) < r or np.linalg.cond(A) > 1e6:
-            n_rank += 1
-            continue
-        run(dict(f='maxvol', A=_js(A), e=rng.choice([1.0, 1.01, 1.05, 1.1]), k=100000, fam=fam), cond=max(1e3, np.linalg.cond(A)))
-        if len(fails) >= 12:
-            break
-    # 2c. cross-cutting families: argument forms, histories, scales, thresholds hit exactly (small integer matrices,
+    # 2b. cross-cutting families: argument forms, histories, scales, thresholds hit exactly (small integer matrices,
     #     incl. r = 1 and n = r + 1; kept only if no decision of the run is within 1e-3 of a tie, so that the float32 /
     #     float16 forms must take the same decisions)
     undocumented = set()
     n_cc = 0
     for t in range(2000 if deep else 400):
-        if n_cc >= (150 if deep else 36):
+        if n_cc >= (150 if deep else 36) or len(fails) >= 12:
             break
         r = rng.choice([1, 1, 2, 2, 3, 4])
         n = rng.choice([r + 1, r + 1, r + 2, 2 * r + 1, 3 * r])
@@ -1653,6 +1677,59 @@ def search(R, ctx, deep, hints):
     if undocumented:
         R.notes.append('argument forms outside the documented types that raise (allowed; they never return a different '
                        'answer): ' + '; '.join(sorted(undocumented))[:1500])
+    # 2c. the clause "max|B| <= e when the iteration limit is not hit" on MANY small matrices: n = r+1 .. 3r (some 4r),
+    #     r = 2 .. 5 (some up to 8), e in {1.0, 1.01, 1.05, 1.1}, k large.  Families in which the LU start is poor, pivots
+    #     cycle and swapped-out rows regain dominance: P L with |L| ~ 1 below the diagonal, near-tie magnitudes, rows that
+    #     are perturbations / rescalings of each other, nearly rank-one, permuted triangular, small integers.
+    def small(fam, r, n):
+        if fam == 'L':
+            lo = rng.choice([0.0, 0.7, 0.9])
+            L = np.zeros((n, r))
+            for i in range(n):
+                for j in range(min(i, r)):
+                    L[i, j] = rng.choice([-1.0, 1.0]) * rng.uniform(lo, 1.0)
+                if i < r:
+                    L[i, i] = 1.0
+            if rng.random() < 0.3:
+                L = L @ (np.eye(r) + np.triu(nprng.normal(size=(r, r)), 1))
+            return L[nprng.permutation(n)]
+        if fam == 'near':
+            return nprng.choice([-1.0, 1.0], size=(n, r)) * nprng.uniform(0.8, 1.25, size=(n, r))
+        if fam == 'pm01':
+            return nprng.choice([-1.0, 0.0, 1.0], size=(n, r)) + 0.2 * nprng.normal(size=(n, r))
+        if fam == 'perturb':
+            base = nprng.normal(size=(rng.randint(1, r), r))
+            A = base[nprng.integers(0, base.shape[0], size=n)] * (1 + 0.2 * nprng.normal(size=(n, 1)))
+            return A + 10.0 ** rng.randint(-3, -1) * nprng.normal(size=(n, r))
+        if fam == 'rank1ish':
+            return nprng.normal(size=(n, 1)) @ nprng.normal(size=(1, r)) + 10.0 ** rng.randint(-3, -1) * nprng.normal(size=(n, r))
+        if fam == 'tri':
+            A = np.tril(nprng.normal(size=(n, r))) + 0.1 * nprng.normal(size=(n, r))
+            return A[nprng.permutation(n)]
+        if fam == 'int':
+            return nprng.integers(-9, 10, size=(n, r)).astype(float)
+        if fam == 'rescaled':      # rows rescaled so that rows dropped early regain dominance after later swaps
+            return nprng.normal(size=(n, r)) * np.exp(0.7 * nprng.normal(size=(n, 1))) * np.exp(0.7 * nprng.normal(size=(1, r)))
+        return nprng.normal(size=(n, r))
+    fams = ['L', 'L', 'L', 'L', 'near', 'pm01', 'perturb', 'rank1ish', 'tri', 'int', 'rescaled', 'gauss']
+    n_small, n_rank = (60000 if deep else 8000), 0
+    t_start = time.time()
+    for t in range(n_small):
+        if len(fails) >= 12:
+            break
+        if time.time() - t_start > (600 if deep else 90):
+            R.notes.append(f'small-matrix family stopped after {t} of {n_small} cases (time guard)')
+            break
+        fam = fams[t % len(fams)]
+        r = rng.randint(2, 5) if t % 4 else rng.randint(5, 8)
+        n = rng.randint(r + 1, 3 * r) if t % 5 else rng.randint(r + 1, 4 * r)
+        A = small(fam, r, n)
+        if np.linalg.matrix_rank(A) < r or np.linalg.cond(A) > 1e6:
+            n_rank += 1
+            continue
+        run(dict(f='maxvol', A=_js(A), e=rng.choice([1.0, 1.01, 1.05, 1.1]), k=20000, fam=fam), cond=max(1e3, np.linalg.cond(A)))
+        if len(fails) >= 12:
+            break
     # 3. rejection clauses and the trivial dispatch
     for t in range(60):
         r = rng.randint(1, 5)
@@ -1667,7 +1744,7 @@ def search(R, ctx, deep, hints):
             run(dict(f='maxvol_rect', A=_js(A), e=1.1, dr_min=dr_min, dr_max=dr_max, e0=1.05, k0=3))
     R.search.append(dict(name='numpy oracle of every clause of C08 (distinct valid rows, A = B A[I], B[I] = Id, '
                               'max|B| <= e / row norms <= e unless the limit was hit, row-count bounds, ValueError); '
-                              'incl. %d small matrices (r = 2..8, n = r+1..4r, e in {1.0,1.01,1.05,1.1}, k = 1e5) from '
+                              'incl. %d small matrices (r = 2..8, n = r+1..4r, e in {1.0,1.01,1.05,1.1}, k = 2e4) from '
                               'pivot-cycling families for the max|B| <= e clause' % n_small,
                          evaluations=n_eval, failures=len(fails), deep=deep))
     return fails
